@@ -5,8 +5,9 @@
 (* the rule only compares and takes minima, never computes.                 *)
 (*  Reset(cUp, cDown, sUp, sDown, ignore, cDecl)                            *)
 (*     client/server configured limits; cDecl = what the client's header    *)
-(*     declares: a rank, or -1 for a missing / non-numeric / overflowing    *)
-(*     header (which reads as 0, "unknown")                                 *)
+(*     declares: a rank, or -1 for a missing / non-numeric header (which    *)
+(*     reads as 0, "unknown"); a number too large for 64 bits is the top of *)
+(*     the scale                                                            *)
 (*  CC(side, kind, rate)   controller actually installed (hook in           *)
 (*     congestion/utils.go): kind "brutal" with its rate rank, or "cc"      *)
 (*  Handshake(tx)   client application: HandshakeInfo.Tx                    *)
@@ -26,8 +27,8 @@ MonInit == [viol |-> {}, cfg |-> [cUp |-> 0, cDown |-> 0, sUp |-> 0, sDown |-> 0
 ServerTx(c) == LET decl == IF c.cDecl < 0 THEN 0 ELSE c.cDecl IN
                IF c.ignore \/ decl = 0 THEN 0 ELSE MinR(decl, OrInf(c.sUp))
 \* client -> server direction: limited by the client's own MaxTx and the server's MaxRx (0 = unlimited)
-ClientTx(c) == IF c.ignore THEN 0
-               ELSE LET t == MinR(OrInf(c.sDown), OrInf(c.cUp)) IN IF t = Inf THEN 0 ELSE t
+\* (the client's own 0 means "I do not know my bandwidth": no usable limit, so no fixed rate)
+ClientTx(c) == IF c.ignore \/ c.cUp = 0 THEN 0 ELSE MinR(OrInf(c.sDown), c.cUp)
 
 Expect(c, side) == IF side = "server" THEN ServerTx(c) ELSE ClientTx(c)
 
